@@ -365,6 +365,7 @@ func main() {
 	} else if os.Getenv("VERIF_C20_DEV") != "" {
 		gen("dev", "gen_dev.cfg", "", 0)
 	} else if env.Thorough() {
+		gen("exhaustive2", "gen_dev.cfg", "", 0)
 		gen("exhaustive3", "gen_quick.cfg", "", 0)
 		gen("exhaustive4core", "gen_thorough.cfg", "", 0)
 		gen("blocks2", "gen_blocks.cfg", "", 0)
